@@ -613,7 +613,7 @@ class C13Machine(Machine):
     def plan(self, tier):
         if tier == 'quick':
             return {'runs': 154 + 18 + 4200, 'budget_s': 110, 'batch': 6}
-        return {'runs': 602 + 18 + 90000, 'budget_s': 1700, 'batch': 12}
+        return {'runs': 602 + 18 + 320000, 'budget_s': 1700, 'batch': 12}
 
     def generate(self, rng, tier, index):
         spec = gen_pool_spec(rng.sub('spec'))
